@@ -183,6 +183,31 @@ class Gen:
     def idiom(self, scope, depth):
         rng = self.rng
         self.budget -= 3
+        if rng.random() < 0.3:
+            # a conditional branch whose distance in the FINAL layout is on the boundary of the signed byte (-129 .. -127,
+            # 126 .. 129); the bytes in between come from instructions on constants that are defined at the end of the file
+            # (2 or 3 bytes, known only after the first pass) and plain data
+            self.kind("idiom_branch_boundary")
+            t = self.fresh("bt")
+            d = rng.choice([-129, -128, -127, 126, 127, 128, 129])
+            self.stats.setdefault("branch_distance", {})
+            self.stats["branch_distance"][str(d)] = self.stats["branch_distance"].get(str(d), 0) + 1
+            size = d if d > 0 else -d - 2          # bytes between the branch and its target
+            filler = []
+            for _ in range(rng.randint(1, 4)):
+                k = self.fresh("late")
+                zp = rng.random() < 0.5
+                self.tail.append(("raw", ".const %s = %s" % (k, rng.choice(["$10", "$fb", "255"]) if zp else rng.choice(["$100", "$1234", "256"]))))
+                filler.append(("raw", "%s %s" % (rng.choice(["lda", "sta", "cmp", "adc"]), k)))
+                size -= 2 if zp else 3
+            while size > 0:
+                n = min(size, rng.choice([1, 7, 16, 16]))
+                filler.append(("raw", ".byte " + ", ".join(["%d" % rng.randrange(256)] * n)) if n > 1 or rng.random() < 0.5 else ("raw", "nop"))
+                size -= n
+            rng.shuffle(filler)
+            br = ("raw", "%s %s" % (rng.choice(["bne", "beq", "bcc", "bcs", "bpl", "bmi", "bvc", "bvs"]), t))
+            lab = ("raw", "%s:" % t)
+            return ("seq", [br] + filler + [lab, ("raw", "nop")] if d > 0 else [lab] + filler + [br])
         if self.f["macros"] and rng.random() < 0.3:
             # a macro that is defined at the end of the file and whose body invokes other macros, followed by invocations of
             # known macros: one reads a name that the next one defines as a label (and that also exists further out).
@@ -267,6 +292,11 @@ class Gen:
 
     def value(self, scope, size):
         r = self.rng.random()
+        if size != ".byte" and self.rng.random() < 0.012:
+            # a number combined with a string: an error once both sides are known (2b7ca67), never "nothing"
+            self.kind("mixed_number_string")
+            return ("rawv", self.rng.choice(['1 + "a"', '"a" + 1', '(1 == 1) + "!"', '"x" == 1', '%s + "s"' % self.ref_name_only(Ref(scope)),
+                                             '"s" - %s' % self.ref_name_only(Ref(scope))]))
         if r < 0.35:
             return ("lit", self.rng.choice([0, 1, 2, 7, 127, 128, 200, 255] if size == ".byte" else [0, 1, 255, 256, 257, 1000, 4096, 65535]))
         if size == ".byte":
@@ -336,6 +366,11 @@ class Gen:
             for _ in range(rng.choice([1, 1, 2])):
                 body.insert(rng.randint(max(1, len(body) // 2), len(body)), ("raw", '.segment "%s"' % rng.choice(self.segments)))
                 self.kind("segment_statement")
+        if self.segments and rng.random() < 0.03:
+            # a statement in front of the first segment definition: it has no segment in the first pass and would be lost when the
+            # segment is defined again in the later ones -- a diagnostic since 65d4f0f, never a silent loss
+            self.kind("code_before_first_segment")
+            top.insert(0, ("raw", rng.choice(["nop", "lda #1", ".byte 1, 2", "jmp $1234"])))
         top += self.head + body + self.tail
         lines = []
         for s in top:
@@ -435,6 +470,8 @@ class Gen:
         k = v[0]
         if k == "lit":
             return self.rng.choice(["%d", "$%x"]) % v[1]
+        if k == "rawv":
+            return v[1]
         if k == "lohi":
             return v[1] + self.ref_name_only(v[2])
         if k == "ref":
@@ -475,6 +512,8 @@ class Gen:
                     self.render(t, ind + 1, out, scope)
                 out.append(p + "}")
         elif k == "braces":
+            if out and out[-1].strip().startswith(".import "):
+                out.append(p + "nop")       # a `{` right after an import would be parsed as the import's parameter block
             out.append(p + "{")
             for t in s[1]:
                 self.render(t, ind + 1, out, scope)
